@@ -40,6 +40,11 @@ define_language! {
     }
 }
 
+thread_local! {
+    /// class slots of the e-graph at the moment rules are built (naming kind 9 only)
+    pub static NAMING_HINT: std::cell::RefCell<Vec<Slot>> = std::cell::RefCell::new(Vec::new());
+}
+
 /// Maps abstract slot numbers to real slots. Must be created inside the run's thread
 /// (named slots are interned in a thread-local table).
 #[derive(Clone)]
@@ -99,11 +104,18 @@ impl Naming {
             // first time right before the insertion that uses it, far above the fresh counter
             8 => Slot::named(&format!("f{}", 1000 + s * 53)),
             // the slots that rules spell (pattern slots 90..99) get the names of the first internal
-            // class slots ($f1, $f3, ..): a rule may legally mention such a name, and it then denotes
+            // class slots ($f0, $f1, ..): a rule may legally mention such a name, and it then denotes
             // the very slot the e-graph uses inside some class; everything else is textual
             9 => {
-                if (90..100).contains(&s) {
-                    Slot::named(&format!("f{}", 2 * (s - 90) + 1))
+                if (94..100).contains(&s) {
+                    // a slot that only the right side of a rule mentions: the user read the name of a
+                    // class slot off the e-graph (hint set by the executor right before the rules
+                    // are built) and spelled it in the rule
+                    let hint = NAMING_HINT.with(|h| h.borrow().clone());
+                    match hint.get((s - 94) as usize) {
+                        Some(x) if self.rev.get(x).map(|o| Naming::is_unknown(*o)).unwrap_or(true) => *x,
+                        _ => Slot::named(&format!("a{:07}", s)),
+                    }
                 } else {
                     Slot::named(&format!("a{:07}", s))
                 }
